@@ -7,15 +7,15 @@ import engine
 
 META = {
     "level": "other",
-    "trusted_base": ["DataVec<_, N>::len() <= N (type-level capacity)", "Range<usize> yields start..end in order", "B-guard of C07 (a read past the "
-                     "payload is Err(BufferOverflow))", "rustc MIR construction", "mirfacts exporter"],
+    "trusted_base": ["DataVec<_, N>::len() <= N (type-level capacity)", "Range<usize> yields start..end in order", "rustc MIR construction", "mirfacts exporter"],
     "explanation": "For the 9 frag_vec, 23 frag_vec_with_len and 2 descriptor-string codecs (floors) and the 9 messages with a mid-header count: "
                    "(K-adeq) the capacity in the list's TYPE is <= 2^w - 1 of the count field it is written to, so the on-wire count cannot wrap; the "
                    "count written is the length of the same vector the write loop iterates (G-count); decoders read one count, guard it against the "
                    "capacity (accepting exactly 0..=N, rejecting with CapacityExceeded), then read exactly count elements pushing each once in order "
                    "(K-guard, G-count; push safety is C02's P-push); (K-fit) the static maximum bit length of every list-bearing message with all loops "
                    "at their capacity is <= 8172; (E-prop) every fallible call in the decode closure is propagated with ?, returned or matched, so a "
-                   "short body (BufferOverflow) or an over-capacity count reaches from_message_frame's Corrupt mapping (E-map).",
+                   "short body (BufferOverflow) or an over-capacity count reaches from_message_frame's Corrupt mapping (E-map)."
+                   "(B-sem) the bit-exact reading of put / parse these clauses stand on (field bits MSB first at the cursor, nothing else touched) is the abstract interpretation of C07, imported and decided here too.",
     "assumptions": ["MSM and code-bias structures are covered by C10 / C16"],
 }
 
